@@ -30,7 +30,7 @@ Record krule := {
 
 Record case := {
   k_fx : fixes;                        (* what the driver's sentinel requests found out about the tree under test:
-                                          which of the (candidate) repairs fixes/C13-Fx.diff are in it *)
+                                          which of the repairs (fix: commits of C13-F1..F11) are in it *)
   k_L : lreq;
   k_rule : option krule;               (* the rule that matches by construction, with the raw captures *)
   k_env_rule : option krule;           (* the same for a lookup with the query string glued to the path (C13-F11): a trailing
@@ -170,14 +170,8 @@ Definition check (fx : fixes) (c : case) : verdict :=
        (9%Z, negb (fx_F9 fx) && existsb (g_F9_query L) qs);
        (11%Z, negb (fx_F11 fx) && g_F11 L) ] |}.
 
-(** the variant of the model is chosen by what the sentinel requests of the run observed; whether a
-    pinned variant is acceptable is decided by findings/C13.json (a guard is only honoured while its
-    finding is listed as open) *)
-Definition check_auto (c : case) : verdict := check (k_fx c) c.
-
-(** the tree since fix: b2286d8 — C13-F1 is repaired: the repaired variant is expected whatever the
-    sentinel says (a regression is then an ordinary VIOLATION); the candidate repairs by sentinel *)
-Definition check_f1fixed (c : case) : verdict := check (set_F1 true (k_fx c)) c.
+(** [check (k_fx c) c] would run the variant the driver's sentinel requests observed (useful for trees
+    before one of the fix: commits); the streams of bin/check use [check_repo]. *)
 
 (** /repo: all eight repairs are in (F1 b2286d8, F2 7c3e9fc, F3 a5ef279, F4 ae6db4f, F6 06faa19, F7 19923cd,
     F9 58408fc, F11 9fe653a): the fully repaired variant is expected whatever the sentinels say (a
@@ -206,7 +200,7 @@ Definition cs fx L r er ep ct db de d p e :=
     service with trusted_proxies; both echo method and URL parts through the same rule.
     [v_corr]: the model ([view_direct], [view_tp]) predicts both echoes; [v_prop]: the two echoes are
     equal; guard 10 = C13-F10 (the query is not its own re-encoding).  [t_fixed_F10]: the driver's
-    sentinel found the candidate repair fixes/C13-F10.diff in the tree. *)
+    sentinel found the repair of C13-F10 (fix: f446e16) in the tree; the stream uses [check_tp_repo]. *)
 Record tobs := { to_status : Z; to_parts : string * string * string * string * string }.
 Record tcase := { t_fixed_F10 : bool; t_L : lreq; t_direct : tobs; t_tp : tobs }.
 
